@@ -65,3 +65,14 @@ def run_sweep(fn, raws, keyf=None, show=30):
     print(fn.__name__, "evaluated", n)
     for k, v in c.most_common(show):
         print(v, k, ex[k])
+
+
+def pda_ts(n, k, mmax, slots=None, npush=6, first_from_start=False):
+    slots = slots or mmax
+    alltr = sorted(itertools.product(range(n), range(k + 1), range(2), range(n), range(npush)))
+    for m in range(mmax + 1):
+        for combo in itertools.combinations(alltr, m):
+            if first_from_start and m and not (combo[0][0] == 0 and combo[0][2] == 0):
+                continue
+            flat = [x for tr in combo for x in tr] + [0] * (5 * (slots - m))
+            yield tuple(flat), m
